@@ -133,6 +133,24 @@ def run(ctx):
     blocks = []
     for i in range(n_blocks):
         k = rng.randint(2, 12)
+        if i % 4 == 3:
+            # dense paragraph: few paths, few access lists, so that Merge really merges next to rules that must stay as written
+            # (and the same access spelling is read many times in one process)
+            paths = rng.sample(["/var/lib/app/lock", "/var/lib/app/db", "@{run}/app.pid", "/etc/app.conf", "@{HOME}/.cache/app/**", "@{lib}/app/helper"], 3)
+            accs = rng.sample([["r", "w", "k"], ["r", "w"], ["m"], ["r"], ["w", "k"], ["m", "r"], ["r", "w", "l", "k"], ["l"], ["m", "r", "ix"], ["r", "ix"]], 4)
+            bl = []
+            for _ in range(rng.randint(4, 9)):
+                a = list(rng.choice(accs))
+                bl.append({"kind": "file", "Comment": "", "Owner": False, "Target": "", "Audit": False, "AccessType": "", "Path": rng.choice(paths), "Access": a})
+            # one exec mode per path at most (two modes on one path are not valid policy)
+            seen_x = {}
+            for r in bl:
+                x = [a for a in r["Access"] if a.endswith("x")]
+                if x:
+                    if seen_x.setdefault(r["Path"], x[0]) != x[0]:
+                        r["Access"] = [a for a in r["Access"] if not a.endswith("x")] or ["r"]
+            blocks.append(bl)
+            continue
         blocks.append([rng.choice(rules) for _ in range(k)])
     reqs = [{"id": i, "do": "rules", "text": "".join("  " + rulegen.canon(r) + "\n" for r in bl) + "\n",
              "pipeline": ["merge", "sort", "format"]} for i, bl in enumerate(blocks)]
